@@ -17,6 +17,22 @@ NOTE = ("Trusted base: CPython ast; oslo.db enginefacade scope joining and "
         "necessary conditions of the behavioural property, not the behaviour.")
 
 CLAIMED = {
+    'C14': dict(
+        text="Exhaustive abstract evaluation over the finite version domain: "
+             "all 36 route/method pairs x all 40 microversions (1440 "
+             "evaluations per run) for availability (handler/404/405) and "
+             "the request schema selected, checked against (a) the schema "
+             "family's own embedded versions (newest <= v, no dead schema, "
+             "accepted keys monotone), (b) the api-ref's availability "
+             "statements and the min_version of every documented request "
+             "parameter (accepted at N, not at N-1), (c) a hand-confirmed "
+             "per-route gate table for response-side gates, plus VERSIONS "
+             "vs. the history headings and the middleware wiring. Header "
+             "text and behaviour inside the trusted middleware are not "
+             "decided.",
+        ref='3/C14', technique='finite-domain abstract interpretation of '
+                               'version predicates, constant-folded schemas, '
+                               'documentation cross-check'),
     'C02': dict(
         text="Three structural clauses: (1) the SQL candidate filter, the "
              "post-merge filter and the write-time check normalise to the "
